@@ -113,9 +113,11 @@ class C12(Prop):
             rest = [j for j in range(len(points)) if j not in taken_]
             keep = taken_ | set(r.sample(rest, max(0, min(len(rest), cap_here - len(taken_)))))
             points = [p for j, p in enumerate(points) if j in keep]
+        live = 50 * w.seq + 5000       # bounded liveness of the calls made after the fault: a generous multiple of the twin's whole history
         for j, (i, seam, k) in enumerate(points):
             c = copy.deepcopy(base)
             c["faults"] = [{"op": i, "seam": seam, "at": k, "kind": "kbdint" if (j + seed) % 3 == 0 else "raise"}]
+            c["op_budgets"] = {str(q): live for q in range(i + 1, len(c["ops"])) if c["ops"][q]["op"] == "integrate"}
             out.append(c)
         # "or tolerances cannot be met": persistent rhs spikes with a small retry cap exhaust the retry loop of one step
         if gen.is_adaptive(base["system"]["method"]) and not base["system"]["method"].startswith("Rich:") and points:
@@ -293,6 +295,13 @@ class C12(Prop):
                         bad("reset_then_equal_to_twin", "after reset()+integrate the trajectory differs from the fault-free twin's (rows %d vs %d)" % (snap["n"], tsnap["n"]), i)
                 continue
             # resumed call after a failure
+            if "terminated upon" in snap["status"] and op.get("events") and snap["n"] == pre_n and len(snap["events"]) == len(w.snaps[i - 1]["events"] if i > 0 else []):
+                # "continues correctly from its end": a call that says it was stopped by an event has met one - a call that returns on the
+                # spot without a new row or a new event has only found again the crossing the prefix already ends on
+                target_ = oracles.op_target(w, op)
+                if np.isfinite(target_) and abs(target_ - float(snap["t"][-1])) > 64 * eps_of(snap["t"].dtype) * max(1.0, abs(target_)):
+                    bad("resume_completes", "op %d (resumed after a failure) returned at t=%r as 'terminated by an event' without recording a step or an event; target %r"
+                        % (i, float(snap["t"][-1]), target_), i)
             oracles.check_rows(w, snap, pre_n - 1, P, P + ".resume_step")
             if tsnap is not None and tsnap["exc"] is None and not tainted:
                 self.compare_final(w, T, snap, tsnap, i, bad)
